@@ -73,11 +73,12 @@ var users = []string{"u1", "u2", "u3", "u4"}
 // senders of Ethereum-style transactions: e1, e2 send the ones that are expected to succeed, every transaction that
 // is expected to fail inside the EVM (and so consumes its nonce on the executing node only) comes from an account of
 // its own, so that the sibling node, which skips failed transactions, stays in step
-var ethUsers = []string{"e1", "e2", "ef0", "ef1", "ef2", "ef3", "ef4", "ef5", "ef6", "ef7", "ef8", "ef9"}
+var ethUsers = []string{"xd", "e1", "e2", "ef0", "ef1", "ef2", "ef3", "ef4", "ef5", "ef6", "ef7", "ef8", "ef9"}
 var poor = map[string]string{"p0": "", "p1": "1", "p2": "20999", "p3": "21000", "p4": "21001", "p5": "230000", "p6": "209999"}
 
 type runner struct {
 	ethContract *types.Address // the contract created by the last eth "create" transaction of the plan
+	xvmContract *types.Address // the WASM contract deployed by the last successful xvmdeploy transaction
 	a, b        *core.Node
 	pair        *lockstep.Pair
 	plan        *Plan
@@ -169,6 +170,25 @@ func (r *runner) build(n *core.Node, t Tx) pb.Transaction {
 		td := &pb.TransactionData{Type: pb.TransactionData_INVOKE, VmType: pb.TransactionData_XVM, Payload: core.InvokePayload(t.M, mkArgs(t.Args)...)}
 		b, _ := td.Marshal()
 		tx = n.RawTx(from, r.addr(n, t.To, from), b, nil)
+	case "xvmdeploy": // deployment of a real WASM contract (the project's own test contract)
+		code, err := ioutil.ReadFile("/repo/pkg/vm/wasm/testdata/optimized.wasm")
+		if err != nil {
+			panic(err)
+		}
+		if t.Pay == "truncated" {
+			code = code[:len(code)/2]
+		}
+		td := &pb.TransactionData{Type: pb.TransactionData_INVOKE, VmType: pb.TransactionData_XVM, Payload: code}
+		b, _ := td.Marshal()
+		tx = n.RawTx(from, types.NewAddress(make([]byte, 20)), b, nil)
+	case "xvmcall": // call of the deployed WASM contract
+		to := r.xvmContract
+		if to == nil {
+			to = n.Account("noxvm").Addr
+		}
+		td := &pb.TransactionData{Type: pb.TransactionData_INVOKE, VmType: pb.TransactionData_XVM, Payload: core.InvokePayloadBytes(t.M, mkArgs(t.Args)...)}
+		b, _ := td.Marshal()
+		tx = n.RawTx(from, to, b, nil)
 	case "eth":
 		var to *types.Address
 		data, _ := hex.DecodeString(t.Pay)
@@ -302,6 +322,11 @@ func (r *runner) run(dir string) {
 		if res == nil {
 			return
 		}
+		for i, t := range blk {
+			if t.K == "xvmdeploy" && i < len(res.Receipts) && res.Receipts[i].Status == pb.Receipt_SUCCESS && len(res.Receipts[i].Ret) == 20 {
+				r.xvmContract = types.NewAddress(res.Receipts[i].Ret)
+			}
+		}
 		for _, t := range blk {
 			if t.K == "eth" { // the EVM checks nonces: a rejected message consumes none
 				a := r.acct(r.a, t.From).Addr
@@ -429,6 +454,24 @@ func genTx(rng *rand.Rand, surf []methodInfo, focus string) Tx {
 	case c < 17:
 		pays := []string{"", "00", "ff", "0a", "0801", "08011203616263", "0802", "080210011a00", "0802100212050a03466f6f", "08031001", "ffffffffffffffffffff01", "0802100112"}
 		return Tx{K: "raw", From: from, To: []string{"contract:store", "contract:interchain", "u2", "0x0000000000000000000000000000000000000000"}[rng.Intn(4)], Pay: pays[rng.Intn(len(pays))], Cls: "raw", BadSig: rng.Intn(10) == 0}
+	case c < 18 && rng.Intn(2) == 0:
+		switch rng.Intn(6) {
+		case 0:
+			// the contract address depends on the deployer's nonce: good deployments come from an account that sends
+			// nothing else (the sibling node skips failed transactions, so other senders' nonces may differ there)
+			if rng.Intn(3) == 0 {
+				return Tx{K: "xvmdeploy", From: from, Cls: "xvm-deploy-truncated", Pay: "truncated"}
+			}
+			return Tx{K: "xvmdeploy", From: "xd", Cls: "xvm-deploy"}
+		case 1, 2:
+			return Tx{K: "xvmcall", From: from, M: "state_test_set", Args: []Arg{{"bytes", []string{"alice", "bob"}[rng.Intn(2)]}, {"bytes", fmt.Sprint(rng.Intn(500))}}, Cls: "xvm-call-set"}
+		case 3:
+			return Tx{K: "xvmcall", From: from, M: "state_test_get", Args: []Arg{{"bytes", "alice"}}, Cls: "xvm-call-get"}
+		case 4:
+			return Tx{K: "xvmcall", From: from, M: "no_such_export", Args: []Arg{{"bytes", "x"}}, Cls: "xvm-call-unknown"}
+		default:
+			return Tx{K: "xvmcall", From: from, M: "state_test_set", Args: []Arg{{"string", "alice"}}, Cls: "xvm-call-badargs"}
+		}
 	case c < 18:
 		return Tx{K: "xvm", From: from, To: []string{"u2", "contract:store", "fresh3", "0x0000000000000000000000000000000000000000"}[rng.Intn(4)], M: []string{"", "set", "deploy"}[rng.Intn(3)], Args: []Arg{{"bytes", []string{"", "hex:0061736d01000000", "hex:00", "rep:2000:ab"}[rng.Intn(4)]}}, Cls: "xvm"}
 	default:
@@ -497,6 +540,9 @@ func genPlan(rng *rand.Rand, surf []methodInfo, name string, focus string) *Plan
 	nb := 4 + rng.Intn(8)
 	es := &ethState{}
 	withEth := focus == "eth" || rng.Intn(3) == 0
+	if rng.Intn(3) == 0 { // a real WASM contract is deployed first, so that the XVM calls of the plan have a target
+		p.Blocks = append(p.Blocks, []Tx{{K: "xvmdeploy", From: "xd", Cls: "xvm-deploy"}})
+	}
 	for b := 0; b < nb; b++ {
 		k := 1 + rng.Intn(5)
 		if rng.Intn(3) == 0 {
